@@ -1094,7 +1094,7 @@ func (x *Exec) assumeHeld(p *Path, label string) {
 	}
 	own := Owner{Obj: base.S, TKey: typeKey(base.T), Field: s.F}
 	p.locks[lockKey(own, label)] = "w"
-	x.assumeLockInv(p, own)
+	// the lock invariant is NOT assumed: a helper may be called in the middle of a critical section
 }
 
 func (x *Exec) lockHeldForCallee(p *Path, vars map[string]Val, label, pkg string) bool {
